@@ -17,7 +17,7 @@ HERE = os.path.dirname(os.path.dirname(os.path.abspath(__file__)))
 OUT = os.path.join(HERE, "build", "mutgen")
 ROOT = "/tmp/espada-mg"
 PROPS = ["C01", "C02", "C03", "C04", "C05", "C06", "C07", "C08", "C09", "C10", "C11", "C12", "C13", "C14", "C15", "C17"]
-FILES = ["src/card/card.rs", "src/card/rank.rs", "src/card/rank_range.rs", "src/card/suit.rs", "src/card/suit_range.rs",
+FILES = ["src/evaluator/dp_table.rs", "src/card/card.rs", "src/card/rank.rs", "src/card/rank_range.rs", "src/card/suit.rs", "src/card/suit_range.rs",
          "src/evaluator/flop_exhaustive.rs", "src/evaluator/made_hand.rs", "src/evaluator/showdown.rs",
          "src/hand_range/card_pair.rs", "src/hand_range/hand_range.rs", "src/hand_range/hand_range_token.rs",
          "src/hand_range/rank_pair.rs"]
@@ -77,6 +77,18 @@ SUBS = [
     (r"\.\.=", [".."]), (r"\bSome\((\w+)\)", ["None"]),
     (r"\.unwrap_or\(&0_f32\)", [".unwrap_or(&1_f32)"]), (r"\.clone\(\)", [""]),
     (r"\.into_iter\(\)", [".into_iter().rev()", ".into_iter().skip(1)"]), (r"\.iter\(\)", [".iter().rev()", ".iter().skip(1)"]),
+    # third operator set: table rows, constants, variant names of every kind, char literals
+    (r"\bRank::(Queen|Jack|Ten|Nine|Eight|Seven|Six|Five)\b", ["Rank::Ace"]),
+    (r"\bREF_(\w+)_A\b", None), (r"\bREF_ONE_", ["REF_TWO_"]), (r"\bREF_TWO_", ["REF_THREE_"]), (r"\bREF_THREE_", ["REF_FOUR_"]),
+    (r"\bREF_FOUR_", ["REF_ONE_"]), (r"_K\[", ["_Q["]), (r"_5\[", ["_6["]),
+    (r"'A'", ["'K'"]), (r"'K'", ["'A'"]), (r"'s'", ["'h'"]), (r"'c'", ["'d'"]), (r"'2'", ["'3'"]), (r"'T'", ["'9'"]),
+    (r"=> 0,", ["=> 1,"]), (r"=> 1,", ["=> 0,"]), (r"=> 12,", ["=> 11,"]), (r"=> 3,", ["=> 2,"]),
+    (r"\bSPADE_MASK\b", ["HEART_MASK"]), (r"\bCLUB_MASK\b", ["DIAMOND_MASK"]), (r"\bACE_MASK\b", ["KING_MASK"]),
+    (r"\bDEUCE_MASK\b", ["TREY_MASK"]), (r"\bTEN_MASK\b", ["NINE_MASK"]),
+    (r"0x0*1\b", None), (r"<< (\d+)", None),
+    (r"\bMadeHandType::(\w+),", None), (r"\b(\d+)\.\.=(\d+) =>", None),
+    (r"\bPocket\(", ["Suited(rank, ", None][:1]),
+    (r"\bremaining_card_len\b", ["len"]), (r"\bself\.turn_from\b", ["self.river_from"]),
 ]
 DROP2 = re.compile(r"^\s*[\w\.\[\]\(\)&\*]+(\.\w+\(.*\))+;\s*$|^\s*[\w\.\[\]]+ [\+\-\*]?= .*;\s*$")
 DROP = re.compile(r"^\s*(self\.[\w\.\[\]]+\.(insert|clear|push|fill|remove)\(.*\);|[\w\.]+\.(insert|clear|push|remove|fill)\(.*\);|"
@@ -97,6 +109,8 @@ def generate(only=None):
             if not st or st.startswith("//") or st.startswith("#[") or st.startswith("use ") or st.startswith("///"):
                 continue
             if re.match(r"^\s*\d+(, \d+)*,?\s*$", ln):       # table rows
+                continue
+            if f.endswith("dp_table.rs") and not ("REF_" in ln and ("=>" in ln or "const REF" in ln)):
                 continue
             for pat, reps in SUBS:
                 if reps is None:
